@@ -311,6 +311,43 @@ Section Fix.
   (* ---- one stripe: the loop over the disks -------------------------------------------------------------- *)
   Record dacc := mkDA { da_buf : list bid; da_failed : list fent; da_valid : bool; da_used : bool; da_st : rstate }.
 
+  (* opening the file of a block (handle_open / handle_create and the first-open checks); None = open error *)
+  Definition open_step (o : copts) (pos j : nat) (f : cfile) (s0 : rstate) : option rstate :=
+    let name := cf_name f in
+    let key := (j, name) in
+    let excl := is_excl o j name in
+    let creating := co_fix o && negb excl in
+    let present := match fs_find (r_fs s0) j name with Some _ => true | None => false end in
+    if negb creating && (fl_missing (get_fl (r_flags s0) key) || negb present) then None
+    else
+      let s1 := if present then s0
+                else rs_flag (rs_setfs s0 (fs_put (r_fs s0) j (mkFF name 0 now 0 (newino j name) []))) key fl_set_created in
+      match fs_find (r_fs s1) j name with
+      | None => None     (* impossible *)
+      | Some g0 =>
+        let fl1 := get_fl (r_flags s1) key in
+        let first := negb (fl_opened fl1) && negb excl in
+        let unsynced := first && (negb (N.eqb (ff_size g0) (cf_size f)) || negb (Z.eqb (ff_mtime g0) (cf_mtime f)) || negb (Z.eqb (ff_nsec g0) (cf_nsec f))) in
+        let s2 := if unsynced then rs_flag s1 key fl_set_unsynced else s1 in
+        let fl2 := get_fl (r_flags s2) key in
+        let larger := first && negb (co_syncedonly o && fl_unsynced fl2) && (cf_size f <? ff_size g0)%N in
+        let s3 := if larger then
+                    let s' := rs_err (rs_tag s2 [tg K_ERR_SIZE [pos; j] [name]]) 1 in
+                    if co_fix o
+                    then rs_recov (rs_tag (rs_setfs s' (fs_put (r_fs s') j (mkFF name (cf_size f) now 0 (ff_inode g0) (firstn (nblocks bs (cf_size f)) (ff_blocks g0)))))
+                                          [tg K_FIXED_SIZE [pos; j] [name]]) 1
+                    else s'
+                  else s2 in
+        Some (rs_flag s3 key fl_set_opened)
+      end.
+
+  (* handle_read of block idx of file f: None = read error (the file ends before the end of the block) *)
+  Definition read_block (s : rstate) (j : nat) (f : cfile) (idx : nat) : option bid :=
+    match fs_find (r_fs s) j (cf_name f) with
+    | None => None
+    | Some g => if (ff_size g <? N.of_nat idx * bs + block_len bs (cf_size f) idx)%N then None else Some (nth idx (ff_blocks g) 0%N)
+    end.
+
   Definition data_step (o : copts) (c : content) (pos : nat) (a : dacc) (j : nat) : dacc :=
     let push0 := fun (a : dacc) => mkDA (da_buf a ++ [0%N]) (da_failed a) (da_valid a) (da_used a) (da_st a) in
     match nth j (c_disks c) None with
@@ -323,55 +360,29 @@ Section Fix.
         let valid := da_valid a && bstate_eqb (fb_state b) SBlk in
         let name := cf_name f in
         let key := (j, name) in
-        let excl := is_excl o j name in
-        if co_audit o && excl then mkDA (da_buf a ++ [0%N]) (da_failed a) valid true (da_st a) else
+        if co_audit o && is_excl o j name then mkDA (da_buf a ++ [0%N]) (da_failed a) valid true (da_st a) else
         let s0 := da_st a in
         let ent := fun (bad : bool) => mkFE bad false j (Some (fb_state b)) (fb_hash b) (Some (f, idx)) in
         let fail := fun (s : rstate) (k : N) =>
                       mkDA (da_buf a ++ [0%N]) (da_failed a ++ [ent true]) valid true
                            (rs_err (rs_tag s [tg k [pos; j] [name; N.of_nat idx]]) 1) in
-        (* open *)
-        let creating := co_fix o && negb excl in
-        let present := match fs_find (r_fs s0) j name with Some _ => true | None => false end in
-        if negb creating && (fl_missing (get_fl (r_flags s0) key) || negb present)
-        then fail (rs_flag s0 key fl_set_missing) K_ERR_OPEN
-        else
-          let s1 := if present then s0
-                    else rs_flag (rs_setfs s0 (fs_put (r_fs s0) j (mkFF name 0 now 0 (newino j name) []))) key fl_set_created in
-          match fs_find (r_fs s1) j name with
-          | None => push0 a     (* impossible *)
-          | Some g0 =>
-            let fl1 := get_fl (r_flags s1) key in
-            let first := negb (fl_opened fl1) && negb excl in
-            let unsynced := first && (negb (N.eqb (ff_size g0) (cf_size f)) || negb (Z.eqb (ff_mtime g0) (cf_mtime f)) || negb (Z.eqb (ff_nsec g0) (cf_nsec f))) in
-            let s2 := if unsynced then rs_flag s1 key fl_set_unsynced else s1 in
-            let fl2 := get_fl (r_flags s2) key in
-            let larger := first && negb (co_syncedonly o && fl_unsynced fl2) && (cf_size f <? ff_size g0)%N in
-            let s3 := if larger then
-                        let s' := rs_err (rs_tag s2 [tg K_ERR_SIZE [pos; j] [name]]) 1 in
-                        if co_fix o
-                        then rs_recov (rs_tag (rs_setfs s' (fs_put (r_fs s') j (mkFF name (cf_size f) now 0 (ff_inode g0) (firstn (nblocks bs (cf_size f)) (ff_blocks g0)))))
-                                              [tg K_FIXED_SIZE [pos; j] [name]]) 1
-                        else s'
-                      else s2 in
-            let s4 := rs_flag s3 key fl_set_opened in
-            match fs_find (r_fs s4) j name with
-            | None => push0 a
-            | Some g =>
-              let len := block_len bs (cf_size f) idx in
-              if (ff_size g <? N.of_nat idx * bs + len)%N then fail s4 K_ERR_READ
-              else
-                let data := nth idx (ff_blocks g) 0%N in
-                match fb_state b with
-                | SChg => mkDA (da_buf a ++ [data]) (da_failed a ++ [ent false]) valid true s4
-                | st =>
-                    if hval_eqb (hashf data len) (fb_hash b)
-                    then mkDA (da_buf a ++ [data]) (da_failed a ++ (if bstate_eqb st SRep then [ent false] else [])) valid true s4
-                    else mkDA (da_buf a ++ [data]) (da_failed a ++ [ent true]) valid true
-                              (rs_err (rs_tag s4 [tg K_ERR_DATA [pos; j] [name; N.of_nat idx]]) 1)
-                end
+        match open_step o pos j f s0 with
+        | None => fail (rs_flag s0 key fl_set_missing) K_ERR_OPEN
+        | Some s4 =>
+          match read_block s4 j f idx with
+          | None => fail s4 K_ERR_READ
+          | Some data =>
+            let len := block_len bs (cf_size f) idx in
+            match fb_state b with
+            | SChg => mkDA (da_buf a ++ [data]) (da_failed a ++ [ent false]) valid true s4
+            | st =>
+                if hval_eqb (hashf data len) (fb_hash b)
+                then mkDA (da_buf a ++ [data]) (da_failed a ++ (if bstate_eqb st SRep then [ent false] else [])) valid true s4
+                else mkDA (da_buf a ++ [data]) (da_failed a ++ [ent true]) valid true
+                          (rs_err (rs_tag s4 [tg K_ERR_DATA [pos; j] [name; N.of_nat idx]]) 1)
             end
           end
+        end
       end
     end.
 
